@@ -629,6 +629,58 @@ def r146(prog, chk):
                      lambda env: not both(env), goal_atoms=atoms)
         chk.ob("R14.6", f"{init.short}|{A.keytext(init.node, s)}", ok, where(init, s), detail="predicate installed only when not both were given",
                message="a predicate is installed although include and exclude were both given")
+    # which predicate is installed is decided by *whether* an option was given (`is not None`), never by its truthiness:
+    # an empty include list selects nothing, an empty exclude list excludes nothing -- neither is "no list"
+    def atomize2(e):
+        a = atomize(e)
+        if a is not None:
+            return a
+        if isinstance(e, ast.Call) and A.callee_name(e) == "callable" and len(e.args) == 1 and isinstance(e.args[0], ast.Name) and e.args[0].id in role:
+            return ((role[e.args[0].id], "callable"), True)
+        if isinstance(e, ast.Name) and e.id in role:
+            return ((role[e.id], "truthy"), True)
+        return None
+
+    def sane(env):  # a callable is not None and is truthy; None is falsy
+        return all((env[(r, "given")] or not env[(r, "callable")]) and (env[(r, "given")] or not env[(r, "truthy")])
+                   and (env[(r, "truthy")] or not env[(r, "callable")]) for r in ("include", "exclude"))
+
+    assigned = {}
+    for st in A.stmts_of(init.node):
+        if isinstance(st, ast.Assign):
+            for t in st.targets:
+                for nm in A.target_names(t):
+                    assigned.setdefault(nm, set()).update(n.id for n in ast.walk(st.value) if isinstance(n, ast.Name))
+
+    def roles_of(expr):
+        seen, todo = set(), [n.id for n in ast.walk(expr) if isinstance(n, ast.Name)]
+        while todo:
+            nm = todo.pop()
+            if nm in seen:
+                continue
+            seen.add(nm)
+            if nm not in role:
+                todo.extend(assigned.get(nm, ()))
+        return {role[nm] for nm in seen if nm in role}
+
+    atoms2 = atoms + tuple((r, k) for r in ("include", "exclude") for k in ("callable", "truthy"))
+    for s in stores:
+        rs_ = roles_of(s.value)
+        cl = [c for c in conds(prog, init, s) if c.polarity in (True, False)]
+        if rs_:
+            goal = lambda env, _r=tuple(rs_): all(env[(r, "given")] for r in _r)
+            what = " and ".join(f"`{r} is not None`" for r in sorted(rs_))
+            msg = (f"the predicate built from {'/'.join(sorted(rs_))} is not installed under {what}: whether the option was given is decided by "
+                   f"something else (its truthiness?), so an empty list is taken for 'no list' and the filter runs on glyphs it was not asked to touch")
+        else:
+            # an empty exclude list excludes nothing, which is what the default does; an empty include list is not the default
+            goal = lambda env: not env[("include", "given")] and not env[("exclude", "truthy")]
+            what = "`include is None` and nothing to exclude"
+            msg = ("the select-everything default is installed although include or exclude may have been given (an empty list is not 'no list'): "
+                   "the filter runs on glyphs it was asked to leave alone")
+        ok = entails(cl, atomize2, goal, constraints=sane, goal_atoms=atoms2)
+        chk.ob("R14.6", f"{init.short}|{A.keytext(init.node, s)} installed under {what}", ok, where(init, s),
+               detail="decided by `is None` / `is not None` tests on the popped options (callable(x) implies x is not None)", message=msg)
     # the selection stored in the lib reaches the filter as it is: an empty include list selects nothing, it is not "no list"
     lf = prog.ix.get_func("ufo2ft.filters:loadFilters")
     ctor = [c for c in A.body_nodes(lf.node) if isinstance(c, ast.Call) and any(k.arg in ("include", "exclude") for k in c.keywords) or (isinstance(c, ast.Call) and getattr(c, "_kwmoved", None) and
@@ -643,10 +695,33 @@ def r146(prog, chk):
         chk.ob("R14.6", f"{lf.short}|{opt} is forwarded exactly as stored in the lib", ok, where(lf, ctor[0]), detail=T(v, 60) if v is not None else "missing",
                message=f"{lf.short}: the '{opt}' selection of a lib-declared filter is not forwarded as stored (`{T(v, 50) if v is not None else None}`): an empty list "
                        f"(select nothing) and a missing key (no selection) are no longer told apart, so the filter runs on glyphs it was not asked to touch")
-    chk.minimum("R14.6", 6)
+    chk.minimum("R14.6", 10)
+
+
+_CHAIN_SRC = """if callable(include):
+    self.include = include
+    self._include_repr = lambda: repr(include)
+elif INC:
+    included = set(include)
+    self.include = lambda g: g.name in included
+    self._include_repr = lambda: repr(include)
+elif EXC:
+    excluded = set(exclude)
+    self.include = lambda g: g.name not in excluded
+    self._exclude_repr = lambda: repr(exclude)
+else:
+    self.include = lambda g: True"""
+
+
+def _CHAIN(inc, exc):
+    return _CHAIN_SRC.replace("INC", inc).replace("EXC", exc)
 
 
 MUTANTS = [
+    M("include list tested by truthiness: an empty include list means 'all glyphs' (seeded C14i)", "ufo2ft/filters/base.py", "BaseFilter.__init__",
+      _CHAIN("include is not None", "exclude is not None"), _CHAIN("include", "exclude is not None"), rule="R14.6"),
+    M("exclude list tested by truthiness", "ufo2ft/filters/base.py", "BaseFilter.__init__",
+      _CHAIN("include is not None", "exclude is not None"), _CHAIN("include is not None", "exclude"), kind="equiv"),
     M("empty include list from the lib treated as 'not set' (seeded C14g)", "ufo2ft/filters/__init__.py", "loadFilters",
       "filterDict.get('include')", "filterDict.get('include') or None", rule="R14.6"),
     M("component-location memo moved to an lru_cache on the filter method (seeded C14f)", "ufo2ft/filters/base.py", "BaseIFilter.glyphSourceLocations",
